@@ -70,10 +70,118 @@ def perturb_spec(spec, rng, col, lo, hi):
     return s
 
 
+def lowflow_mesh(rng):
+    """hilly low-flow water mesh with parallel mains and a dead-end stub behind an open valve: the regime in which
+    automatic damping really rejects steps (none of the ordinary generated nets does)"""
+    n = rng.randint(5, 8)
+    ops = []
+    for i in range(n):
+        ops.append(["create_junction", {"pn_bar": 16.0, "tfluid_k": 293.15, "height_m": rng.choice([30., 0., 0., 0., -20., 10.]),
+                                        "index": i}])
+    ops.append(["create_ext_grid", {"junction": 0, "p_bar": 16.0, "t_k": 293.15, "type": "pt", "index": 0}])
+    k = 0
+    for i in range(1, n):
+        a = rng.randrange(0, i)
+        ops.append(["create_pipe_from_parameters", {"from_junction": a, "to_junction": i, "length_km": rng.uniform(0.1, 2.0),
+                                                    "inner_diameter_mm": rng.choice([25., 100., 200.]), "k_mm": 0.1, "index": k}])
+        k += 1
+    for _ in range(rng.randint(1, 3)):          # parallel mains / meshes
+        fn, kw = rng.choice([o for o in ops if o[0] == "create_pipe_from_parameters"])
+        a, c = (kw["from_junction"], kw["to_junction"]) if rng.random() < 0.6 else rng.sample(range(n), 2)
+        ops.append(["create_pipe_from_parameters", {"from_junction": a, "to_junction": c, "length_km": rng.uniform(0.1, 2.0),
+                                                    "inner_diameter_mm": rng.choice([100., 200.]), "k_mm": 0.1, "index": k}])
+        k += 1
+    for j in rng.sample(range(1, n), rng.randint(2, min(4, n - 1))):
+        ops.append(["create_sink", {"junction": j, "mdot_kg_per_s": rng.uniform(0.01, 0.04), "index": j}])
+    # dead-end stub: open valve to a junction without consumption (no flow, zero length)
+    ops.append(["create_junction", {"pn_bar": 16.0, "tfluid_k": 293.15, "height_m": 0., "index": n}])
+    ops.append(["create_valve", {"junction": rng.randrange(0, n), "element": n, "et": "ju", "inner_diameter_mm": 50.,
+                                 "opened": True, "loss_coefficient": 0.5, "index": 0}])
+    return {"fluid": "water", "ops": ops}
+
+
+def stagnant_classes(spec, res_a, res_b, diffs):
+    """Where do two converged runs differ?  A branch is stagnant if |mdot| < 1e-7 in both runs.  Returns
+    "stagnant_loop" if every difference sits in a stagnant region that contains a cycle of stagnant branches
+    (temperatures there are not determined by any inflow), "stagnant_tree" if all sit in stagnant regions without
+    cycle, else "flowing"."""
+    branch_ops = {"create_pipe_from_parameters": ("res_pipe", "from_junction", "to_junction"),
+                  "create_valve": ("res_valve", "junction", "element"),
+                  "create_flow_control": ("res_flow_control", "from_junction", "to_junction"),
+                  "create_heat_exchanger": ("res_heat_exchanger", "from_junction", "to_junction"),
+                  "create_heat_consumer": ("res_heat_consumer", "from_junction", "to_junction"),
+                  "create_pump": ("res_pump", "from_junction", "to_junction"),
+                  "create_compressor": ("res_compressor", "from_junction", "to_junction")}
+
+    def mdot(res, tbl, idx):
+        t = res.get(tbl)
+        if not t or idx not in t["index"]:
+            return None
+        col = t["cols"].get("mdot_from_kg_per_s")
+        return None if col is None else col[t["index"].index(idx)]
+    stag = []        # (table, idx, a, b)
+    for fn, kw in spec["ops"]:
+        if fn in branch_ops and not (fn == "create_valve" and kw.get("et") == "pi"):
+            tbl, fa, fb = branch_ops[fn]
+            ma, mb = mdot(res_a, tbl, kw["index"]), mdot(res_b, tbl, kw["index"])
+            if ma is not None and mb is not None and abs(ma) < 1e-7 and abs(mb) < 1e-7:
+                stag.append((tbl, kw["index"], kw[fa], kw[fb]))
+    # components of the stagnant subgraph
+    comp = {}
+    def find(x):
+        while comp.setdefault(x, x) != x:
+            x = comp[x]
+        return x
+    for _, _, a, b in stag:
+        comp[find(a)] = find(b)
+    edges, nodes = {}, {}
+    for _, _, a, b in stag:
+        r = find(a)
+        edges[r] = edges.get(r, 0) + 1
+    for x in list(comp):
+        nodes[find(x)] = nodes.get(find(x), 0) + 1
+    # junctions with any flowing branch attached are boundary nodes, still part of the region
+    cyc = {r: edges.get(r, 0) >= nodes.get(r, 0) for r in nodes}
+    stag_branch = {(t, i): find(a) for t, i, a, b in stag}
+    kinds = set()
+    for tbl, msg in diffs:
+        idx = int(msg.split("[")[1].split("]")[0])
+        if tbl == "res_junction":
+            region = find(idx) if idx in comp else None
+        else:
+            region = stag_branch.get((tbl, idx))
+        if region is None:
+            kinds.add("flowing")
+        else:
+            kinds.add("stagnant_loop" if cyc.get(region) else "stagnant_tree")
+    if "flowing" in kinds:
+        return "flowing"
+    return "stagnant_tree" if "stagnant_tree" in kinds else "stagnant_loop"
+
+
 def run_variant(spec, **kw):
     net = gen.build(spec)
     st, msg = drive.run(net, **kw)
     return st, (drive.snapshot_results(net) if st == "ok" else None)
+
+
+def corpus_witness(ctx):
+    """minimised past failures run first (DESIGN 2.5): the stagnant-loop temperature finding"""
+    import json
+    p = os.path.join(os.path.dirname(os.path.dirname(os.path.dirname(os.path.abspath(__file__)))), "corpus",
+                     "C08_stagnant_loop.json")
+    w = json.load(open(p))
+    st0, r0 = run_variant(w["spec"], **w["base_options"])
+    st1, r1 = run_variant(w["variant_spec"], **w["variant_options"])
+    ctx.case({"corpus": "C08_stagnant_loop", "status": [st0, st1]}, st0 == st1 == "ok", key="corpus:stagnant_loop")
+    if st0 == st1 == "ok":
+        diffs = compare(r0, r1, atol=1e-5, rtol=1e-9)
+        if diffs:
+            ctx.violation({"clause": "start_value_or_damping_independence", "variant": "start", "profile": "lowflow_thermal",
+                           "mode": "bidirectional", "where": stagnant_classes(w["spec"], r0, r1, diffs)},
+                          "two converged runs of the same physical network disagree: %s %s (first of %d; corpus witness)"
+                          % (diffs[0][0], diffs[0][1], len(diffs)),
+                          {"corpus": "corpus/C08_stagnant_loop.json", "diffs": diffs[:10]})
 
 
 def run(ctx):
@@ -88,19 +196,34 @@ def run(ctx):
         except Exception as e:
             ctx.broken("translator", name, repr(e))
     proved = ctx.prove("C08")
-    n_nets = 24 if ctx.quick else 400
     rng = ctx.rng
+    # fixed mix: ordinary generated nets + the low-flow meshes in which automatic damping rejects steps
+    mult = 1 if ctx.quick else 14
+    plan = (["water"] * 5 + ["water_thermal"] * 4 + ["gas"] * 5 + ["heat"] * 5 + ["lowflow"] * 6 +
+            ["lowflow_default_tol"] * 14 + ["lowflow_thermal"] * 5) * mult
+    n_nets = len(plan)
     nconv = 0
+    corpus_witness(ctx)
     for k in range(n_nets):
-        profile = rng.choice(["water", "water", "gas", "heat"])
-        spec = gen.gen_net(rng, profile)
+        profile = plan[k]
+        if profile.startswith("lowflow"):
+            spec = lowflow_mesh(rng)
+        else:
+            spec = gen.gen_net(rng, "water" if profile == "water_thermal" else profile)
         d = gen.describe(spec)
         rich = d["counts"].get("pipe", 0) >= d["junctions"] or any(
             c in d["counts"] for c in ("pump", "compressor", "flow_control", "pressure_control", "valve")) \
             or d["counts"].get("ext_grid", 0) > 1
-        if profile == "heat":
+        if profile in ("heat", "water_thermal", "lowflow_thermal"):
             base_kw = dict(mode="bidirectional", tol_T=1e-7, use_numba=False, **TIGHT)
             col, lo, hi, atol = "tfluid_k", 0.9, 1.1, 1e-5
+        elif profile == "lowflow_default_tol":
+            # solver defaults (tol 1e-5): two accepted runs may differ by a small multiple of the tolerance
+            base_kw = dict(mode="hydraulics", use_numba=False, iter=100)
+            col, lo, hi, atol = "pn_bar", 0.2, 2.5, 1e-3
+        elif profile == "lowflow":
+            base_kw = dict(mode="hydraulics", use_numba=False, **TIGHT)
+            col, lo, hi, atol = "pn_bar", 0.2, 2.5, 1e-7
         else:
             base_kw = dict(mode="hydraulics", use_numba=False, **TIGHT)
             col, lo, hi, atol = "pn_bar", 0.4, 2.5, 1e-7
@@ -111,8 +234,9 @@ def run(ctx):
             continue
         variants = [("start_%d" % i, perturb_spec(spec, rng, col, lo, hi), base_kw) for i in range(3)]
         variants.append(("automatic_damping", spec, dict(base_kw, nonlinear_method="automatic")))
-        variants.append(("automatic_damping_start", perturb_spec(spec, rng, col, lo, hi),
-                         dict(base_kw, nonlinear_method="automatic")))
+        for i in range(3 if profile.startswith("lowflow") else 1):
+            variants.append(("automatic_damping_start_%d" % i, perturb_spec(spec, rng, col, lo, hi),
+                             dict(base_kw, nonlinear_method="automatic")))
         for name, vs, kw in variants:
             st, r = run_variant(vs, **kw)
             ctx.count("variant_" + st)
@@ -125,7 +249,8 @@ def run(ctx):
             diffs = compare(r0, r, atol=atol, rtol=1e-9, zero_res_valves=zrv)
             if diffs:
                 ctx.violation({"clause": "start_value_or_damping_independence", "variant": name.split("_")[0],
-                               "profile": profile},
+                               "profile": profile, "mode": base_kw["mode"],
+                               "where": stagnant_classes(spec, r0, r, diffs)},
                               "two converged runs of the same physical network disagree: %s %s (first of %d)"
                               % (diffs[0][0], diffs[0][1], len(diffs)),
                               {"spec": spec, "variant_spec": vs, "base_options": base_kw, "variant_options": kw,
